@@ -243,8 +243,12 @@ func DecodeClaimsFromJSON(buf []byte) (IClaims, error) {
 
 	var found IProfile
 
+	declared := false // buf carries a (non-null) profile claim
+
 	for name, entry := range profilesRegister {
-		if profileTag, ok := decoded[entry.JSONTag]; ok {
+		if profileTag, ok := decoded[entry.JSONTag]; ok && profileTag != nil {
+			declared = true
+
 			if profileTag != entry.Profile.GetName() {
 				continue
 			}
@@ -259,7 +263,13 @@ func DecodeClaimsFromJSON(buf []byte) (IClaims, error) {
 	}
 
 	if found == nil {
-		return nil, errors.New(`could not match profile`)
+		defaultEntry, ok := profilesRegister[""]
+		if declared || !ok {
+			return nil, errors.New(`could not match profile`)
+		}
+
+		// no profile claim: PSA_IOT_PROFILE_1 is assumed
+		found = defaultEntry.Profile
 	}
 
 	claims := found.GetClaims()
